@@ -72,7 +72,7 @@ func runC06(rc *RunCtx) {
 	if replayOn {
 		rsz = 100
 	}
-	srv := startTCPServer(rc, w, tcpServerOpts{Keys: keys, Replay: rsz, Timeout: T, UseSvc: useSvc})
+	srv := startTCPServer(rc, w, tcpServerOpts{Keys: keys, Replay: rsz, Timeout: T, UseSvc: useSvc, Debug: rc.F.Draw(3) == 1})
 	nP := 1 + G.Draw(4)
 	probes := make([]*c06probe, nP)
 	tgtIP := net.IPv4(93, 184, 216, 34).To4()
@@ -380,7 +380,7 @@ func runC06(rc *RunCtx) {
 			if n := len(srvEnd.Wrote); n != 0 {
 				rc.Failf("probe-answered:"+cls, "probe %d (%s): server wrote %d bytes to an unauthenticated client", p.k, p.desc, n)
 			}
-			if gotRst && p.lastWrite+skew+time.Microsecond >= rstRecv {
+			if gotRst && p.lastWrite+skew+time.Microsecond >= rstRecv && rstRecv >= p.connectAt+srv.Timeout {
 				// the client was still writing at the instant of the close (clock ticks can
 				// push a trickled write onto the deadline): unread data legitimately resets
 				rc.Probe("client_write_at_close_instant")
